@@ -14,5 +14,8 @@ OpsFuse == {"fuse"}
 OpsPhase == {"phase", "conj", "transpose"}
 OpsAll == {"partner", "transpose", "conj", "expand", "fuse", "tensordot", "phase"}
 OpsContract == {"partner", "tensordot", "transpose"}
+OpsArith == {"arith", "diag", "reduce", "transpose", "einsum"}
+OpsAlgebra == {"arith", "diag", "reduce", "conj", "expand", "phase", "einsum"}
+OpsEinsum == {"einsum", "transpose", "conj", "phase", "reduce"}
 OpsStruct == {"transpose", "conj", "expand", "fuse", "phase"}
 =============================================================================
